@@ -361,7 +361,7 @@ def analyse(info, prims):
                 res["disagreements"].append({"build": name, "line": i, "request": r, "model": m, "lab": "<program stopped: rc=%s>" % b.get("rc")})
                 break
             mm = m if hooks else m.split(" | a=")[0]
-            if ev[k] != mm:
+            if ev[k] != mm and not wildcard_eq(ev[k], mm):
                 res["n_disagree"] += 1
                 if len(res["disagreements"]) < 40:
                     res["disagreements"].append({"build": name, "line": i, "request": r, "model": mm, "lab": ev[k]})
@@ -373,6 +373,15 @@ def analyse(info, prims):
     for (i, r, m) in xs[5:8]:
         res["samples"].append({"request": r, "model": m})
     return res, req
+
+
+def wildcard_eq(lab, model):
+    """the lab prints `?` for a plain-old-data field it knows to be uninitialised (whatever bytes are there);
+    the model may know a stale value for those bytes: not a disagreement"""
+    if "?" not in lab:
+        return False
+    pat = re.escape(lab).replace(r"\?", r"[^,| ]+")
+    return re.fullmatch(pat, model) is not None
 
 
 def module_of(req, line):
